@@ -23,13 +23,13 @@ func (m *machine) builtin(x *wgen.Builtin) Value {
 		p := m.eval(x.Args[0])
 		v := m.eval(x.Args[1])
 		c := p.ptr()
-		c.B = convertTo(v, wgen.Scalar(c.T.S)).B
+		c.B = m.convertTo(v, wgen.Scalar(c.T.S)).B
 		return Value{}
 	case "atomicAdd", "atomicSub", "atomicMax", "atomicMin", "atomicAnd", "atomicOr", "atomicXor", "atomicExchange":
 		p := m.eval(x.Args[0])
 		c := p.ptr()
 		k := c.T.S
-		v := convertTo(m.eval(x.Args[1]), wgen.Scalar(k))
+		v := m.convertTo(m.eval(x.Args[1]), wgen.Scalar(k))
 		old := Value{T: wgen.Scalar(k), B: c.B}
 		a, b := c.B, v.B
 		var r uint32
@@ -70,7 +70,7 @@ func (m *machine) builtin(x *wgen.Builtin) Value {
 		t := m.eval(x.Args[1])
 		c := m.eval(x.Args[2])
 		m.discrete(c)
-		f, t = convertTo(f, x.T), convertTo(t, x.T)
+		f, t = m.convertTo(f, x.T), m.convertTo(t, x.T)
 		if c.T.K == wgen.TScalar {
 			if c.Bool() {
 				return t
@@ -125,7 +125,7 @@ func (m *machine) numBuiltin(name string, args []Value, rt *wgen.Type) Value {
 	// unify abstract arguments with the result's scalar kind
 	for i := range args {
 		if args[i].T != nil && (args[i].T.K == wgen.TScalar || args[i].T.K == wgen.TVec) && args[i].T.S.IsAbstract() && rt != nil && rt.K != wgen.TStruct {
-			args[i] = convertTo(args[i], args[i].T.WithKind(rt.S))
+			args[i] = m.convertTo(args[i], args[i].T.WithKind(rt.S))
 		}
 	}
 	a0 := args[0]
@@ -451,11 +451,19 @@ func (m *machine) floatBuiltin(name string, a []Value) Value {
 			m.ev.UndefBuiltin++
 		}
 		return m.fres(math.Log2(x), true)
-	case "sin":
-		return m.fres(math.Sin(x), true)
-	case "cos":
-		return m.fres(math.Cos(x), true)
-	case "tan":
+	case "sin", "cos", "tan":
+		if math.Abs(x) > 256 {
+			m.ev.Imprecise++ // absolute error bounds only hold on a bounded range
+		}
+		switch name {
+		case "sin":
+			return m.fres(math.Sin(x), true)
+		case "cos":
+			return m.fres(math.Cos(x), true)
+		}
+		if math.Abs(math.Cos(x)) < 1e-2 {
+			m.ev.Imprecise++
+		}
 		return m.fres(math.Tan(x), true)
 	case "atan":
 		return m.fres(math.Atan(x), true)
